@@ -708,6 +708,9 @@ func (tr *Trans) callerAsserts(when, callee string, ord int, args []Val, res Val
 		t, extra := tr.goalClause(env, as.Clause.AST)
 		tr.e.oblige(&Obl{Name: fmt.Sprintf("%s#assert-%s@%s#%d:%s", tr.label, when, as.Callee, ord, as.Clause.Label), Kind: "assert",
 			Props: as.Clause.Props, Cond: tr.rc, Goal: t, Pos: as.Clause.Where, Fn: tr.label, Extra: extra})
+		// the call site must be reachable in the model, or the assertion above is vacuous
+		tr.e.oblige(&Obl{Name: fmt.Sprintf("%s#vacuity:assert-%s@%s#%d:%s-reachable", tr.label, when, as.Callee, ord, as.Clause.Label), Kind: "vacuity",
+			Props: as.Clause.Props, Cond: tr.rc, Goal: tTrue, Vac: true, Fn: tr.label})
 	}
 }
 
